@@ -420,6 +420,10 @@ func checkC09Huge(c c09HugeCase, ctx *vCtx) *vFailure {
 	for _, a := range cmd {
 		args = append(args, strings.ReplaceAll(a, "@F@", huge))
 	}
+	// a report over tens of MiB of input legitimately takes a while: the time limit grows with the size
+	oldLimit := vWatchLimit
+	vWatchLimit = oldLimit + time.Duration(c.KiB/1024)*6*time.Second
+	defer func() { vWatchLimit = oldLimit }()
 	r := vRunApp(vInvocation{Args: args})
 	ctx.Run(1)
 	ctx.NonTrivial(true)
@@ -457,8 +461,8 @@ func TestVerifC09Huge(t *testing.T) {
 				n = len(c09HugeLogCmds)
 			}
 			for ci := 0; ci < n; ci++ {
-				if kib >= 32*1024 && !vThorough() && ci > 2 {
-					continue // quick: three commands on the files above 32 MiB
+				if kib >= 32*1024 && (!vThorough() || kib > 40*1024) && ci > 2 {
+					continue // three commands on the files above 32 MiB (quick) / above 40 MiB (thorough)
 				}
 				space = append(space, c09HugeCase{KiB: kib, IsLog: isLog, Cmd: ci})
 			}
